@@ -145,7 +145,7 @@ var opKinds = []string{"checkout-force-branch", "checkout-force-hash", "checkout
 
 func run(c *vf.Ctx) {
 	g := gitx.New(c.Scratch)
-	nHist := c.N(10, 36)
+	nHist := c.N(8, 36)
 	perHist := c.N(14, 30)
 	var mu sync.Mutex
 	confirmSeen := map[string]bool{}
@@ -267,7 +267,7 @@ func run(c *vf.Ctx) {
 				rec.Step = len(rec.Ops) - 1
 
 				if only != "" { // triage: keep the state before every step
-					keep := filepath.Join(os.TempDir(), fmt.Sprintf("c32-only-%d-%d-pre%d", hi, ci, step))
+					keep := filepath.Join(c.Scratch, fmt.Sprintf("c32-only-%d-%d-pre%d", hi, ci, step)) // survives with VERIF_KEEP=1
 					os.RemoveAll(keep)
 					twin.CopyTree(B, keep)
 					fmt.Printf("KEPT %s target=%s\n", keep, base.IDs[op.Commit])
@@ -423,10 +423,10 @@ func run(c *vf.Ctx) {
 	c.Extra("git_invocations", gitx.Calls.Load())
 	c.Extra("op_error_samples", errSamples)
 	c.Extra("failures_by_key_and_op", failByOp)
-	c.Floor("successful sparse operations", c.Counter("ops_succeeded"), c.N(100, 1000))
+	c.Floor("successful sparse operations", c.Counter("ops_succeeded"), c.N(80, 1000))
 	c.Floor("operations whose selection is a string prefix of a sibling name", c.Counter("ops_with_prefix_sibling"), c.N(25, 250))
-	c.Floor("operations switching an earlier selection", c.Counter("ops_switching_selection"), c.N(15, 200))
-	c.Floor("model partitions confirmed by real git sparse checkout", c.Counter("git_confirmations"), c.N(15, 80))
+	c.Floor("operations switching an earlier selection", c.Counter("ops_switching_selection"), c.N(10, 200))
+	c.Floor("model partitions confirmed by real git sparse checkout", c.Counter("git_confirmations"), c.N(12, 80))
 	c.Floor("operation kinds", c.SeenCount("op_kinds"), len(opKinds))
 	c.Assume("the property's set model (not git's cone mode, which also materialises files of parent directories) is the specification; git confirms it through non-cone patterns '/d/'")
 	c.Assume("MixedReset/SoftReset with SparseDirs are outside the domain: by definition they do not update the worktree")
